@@ -13,7 +13,7 @@ def build():
     u = Unit("x509", "acme_common")
     u.prelude("stdx", "time", "ac_shims", "vmap")
     u.drop_derives = {"Debug", "Clone", "Copy"}
-    u.module("crypto", "use crate::*;\nuse crate::error::Error;\nuse crate::openssl::pkey::{PKey, Private};")
+    u.module("crypto", "use crate::*;\nuse crate::error::Error;\nuse crate::openssl::pkey::{PKey, Private};\nuse crate::openssl::nid::Nid;")
     for cst in ["APP_ORG", "APP_NAME", "X509_VERSION", "CRT_SERIAL_NB_BITS", "INVALID_EXT_MSG", "CRT_NB_DAYS_VALIDITY"]:
         u.take(CR, cst, "crypto")
     u.take(CR, "BaseSubjectAttribute", "crypto", keep_derives=("Eq", "Hash", "PartialEq", "Clone", "Copy"))
@@ -21,6 +21,9 @@ def build():
     u.take("acme_common/src/crypto/key_type.rs", "KeyType", "crypto", keep_derives=("PartialEq", "Clone", "Copy"))
     u.take("acme_common/src/crypto/openssl_keys.rs", "KeyPair", "crypto")
     u.raw("crypto", CRYPTO_TRUSTED, trusted=True)
+    u.verify("acme_common/src/crypto/openssl_subject_attribute.rs", "SubjectAttribute::get_nid", "crypto", props=["C01"], fns={"get_nid": FnSpec(ret="r", sig="""
+    ensures r == nid_of(*self), //@C01.each_subject_attribute_is_written_under_its_own_attribute_type
+""")})
     u.module("crypto::openssl_certificate", "use crate::*;\nuse super::*;\nuse super::{gen_keypair, KeyPair, KeyType, SubjectAttribute};\n"
              "use crate::crypto::HashFunction;\nuse crate::error::Error;\nuse crate::openssl::asn1::Asn1Time;\n"
              "use crate::openssl::bn::{BigNum, MsbOption};\nuse crate::openssl::hash::MessageDigest;\nuse crate::openssl::stack::Stack;\n"
@@ -118,11 +121,17 @@ def build():
 CRYPTO_TRUSTED = """
 pub type SubjectAttribute = BaseSubjectAttribute;
 pub type HashFunction = BaseHashFunction;
-// numeric identifier of each subject attribute (openssl::nid::Nid), table of openssl_subject_attribute.rs
-pub uninterp spec fn nid_of(a: SubjectAttribute) -> crate::openssl::nid::Nid;
-impl BaseSubjectAttribute {
-    #[verifier::external_body]
-    pub fn get_nid(&self) -> (r: crate::openssl::nid::Nid) ensures r == nid_of(*self) { unimplemented!() }
+// the X.520 / PKCS#9 attribute type each configurable subject attribute stands for (acmed.toml(5), subject_attributes), as OpenSSL names it
+pub open spec fn nid_of(a: SubjectAttribute) -> crate::openssl::nid::Nid {
+    match a {
+        BaseSubjectAttribute::CountryName => Nid::COUNTRYNAME, BaseSubjectAttribute::GenerationQualifier => Nid::GENERATIONQUALIFIER,
+        BaseSubjectAttribute::GivenName => Nid::GIVENNAME, BaseSubjectAttribute::Initials => Nid::INITIALS,
+        BaseSubjectAttribute::LocalityName => Nid::LOCALITYNAME, BaseSubjectAttribute::Name => Nid::NAME,
+        BaseSubjectAttribute::OrganizationName => Nid::ORGANIZATIONNAME, BaseSubjectAttribute::OrganizationalUnitName => Nid::ORGANIZATIONALUNITNAME,
+        BaseSubjectAttribute::Pkcs9EmailAddress => Nid::PKCS9_EMAILADDRESS, BaseSubjectAttribute::PostalAddress => Nid::POSTALADDRESS,
+        BaseSubjectAttribute::PostalCode => Nid::POSTALCODE, BaseSubjectAttribute::StateOrProvinceName => Nid::STATEORPROVINCENAME,
+        BaseSubjectAttribute::Street => Nid::STREETADDRESS, BaseSubjectAttribute::Surname => Nid::SURNAME, BaseSubjectAttribute::Title => Nid::TITLE,
+    }
 }
 impl BaseHashFunction {
     #[verifier::external_body]
